@@ -235,13 +235,13 @@ def sample(ctx, hs, rng):
         evs = {s["ev"] for s in h["h"]}
         kind = "rt" if "rt" in evs else "timeout" if "timeout" in evs else "plain"
         by.setdefault((cls(h), kind), []).append(h)
-    quota = {"plain": ctx.pick(3, 10 ** 9), "timeout": ctx.pick(3, 40), "rt": ctx.pick(1, 5)}
+    quota = {"plain": ctx.pick(2, 10 ** 9), "timeout": ctx.pick(3, 30), "rt": ctx.pick(1, 5)}
     out = []
     for k in sorted(by, key=str):
         rng.shuffle(by[k])
         q = quota[k[1]]
         if k[0][0] == "https+tcp+sni" and k[0][4] == "none" and k[0][6] == "sw":
-            q = ctx.pick(30, 10 ** 9)       # the dispatch must follow the table of the moment: both tables, changes, every cut
+            q = ctx.pick(24, 10 ** 9)       # the dispatch must follow the table of the moment: both tables, changes, every cut
         out += by[k][:q]
     return out
 
@@ -249,8 +249,8 @@ def sample(ctx, hs, rng):
 def race(ctx, measured):
     """C->S: connections whose sends race the header timer, recorded and validated by Ingress_Trace"""
     tr = os.path.join(ctx.tmp, "x04-race.ndjson")
-    n = ctx.pick(160, 900)
-    g = ctx.gotest(".", FILES, "^TestVerifX04Race$", env={"X04_TRACE": tr, "X04_RACES": n, "X04_COPIES": ctx.pick(3, 6)}, timeout=300)
+    n = ctx.pick(120, 900)
+    g = ctx.gotest(".", FILES, "^TestVerifX04Race$", env={"X04_TRACE": tr, "X04_RACES": n, "X04_COPIES": ctx.pick(3, 6), "X04_PORT_BASE": 15000}, timeout=300)
     if not ctx.need_go_ok(g, "X04 race recording"):
         return
     cfg = "SPECIFICATION TSpec\n" + consts(measured) + "VIEW TView\nCONSTRAINT HW\nINVARIANTS TraceInv\nPOSTCONDITION Accepted\nCHECK_DEADLOCK FALSE\n"
@@ -308,6 +308,15 @@ def run(ctx):
         "PROXY protocol version 2 is outside the documentation (v1 only): a v2 header is specified as payload",
     ]
     import threading
+    lock = threading.RLock()
+
+    def locked(fn):
+        def w(*a, **k):
+            with lock:
+                return fn(*a, **k)
+        return w
+    # several parts report from their own threads
+    ctx.cover, ctx.violation, ctx.inconclusive = locked(ctx.cover), locked(ctx.violation), locked(ctx.inconclusive)
     par = Par()
     holder = {"ready": threading.Event()}
     doc = par.go(mc_documented, ctx, holder)
@@ -318,9 +327,10 @@ def run(ctx):
     if measured is None:
         Par.wait(doc), Par.wait(rest)
         return
+    racing = par.go(race, ctx, measured)
     hs = generate(ctx, measured)
     if hs is None:
-        Par.wait(doc), Par.wait(rest)
+        Par.wait(doc), Par.wait(rest), Par.wait(racing)
         return
     rng = random.Random(ctx.seed)
     for i, h in enumerate(hs):
@@ -355,7 +365,7 @@ def run(ctx):
                   distinct_nontrivial=s["classes"], samples=[json.dumps(h)[:600] for h in hs[:3]],
                   rule="every move of every history: upstream bytes, effective address (XFF, Forwarded, X-Real-Ip, allow=ip:, $remote_addr, outgoing PROXY header), answers, close",
                   exhaustive=ctx.thorough)
-        race(ctx, measured)
+    Par.wait(racing)
     ok1 = Par.wait(doc)
     ok2 = Par.wait(rest)
     if ok1 and ok2:
